@@ -414,7 +414,28 @@ def local_inits(body, lid):
 def buffer_written_upper(body, lid):
     """Every element store into local array `lid` stores a to_ascii_uppercase() result; init is zeros."""
     stores = 0
+    aliased = False
+    deref_stores = []
+
+    def is_upper(r):
+        r = F.strip(r)
+        return (r.get("k") == "MethodCall" and r.get("name") == "to_ascii_uppercase") or \
+            (r.get("k") == "Call" and F.callee(r).endswith("to_ascii_uppercase"))
+
+    def rooted_at_buf(n):
+        n = F.strip(n)
+        while n.get("k") in ("MethodCall", "Index", "AddrOf", "Field", "Unary"):
+            n = F.strip(n.get("recv") or n.get("base") or n.get("e"))
+        return n.get("k") == "Path" and n.get("res", {}).get("local") == lid
     for node, par in F.walk(body["hir"]):
+        if node.get("k") == "MethodCall" and node.get("name") in ("iter_mut", "as_mut_slice", "as_mut", "chunks_mut", "split_at_mut") and rooted_at_buf(node["recv"]):
+            aliased = True      # elements are written through the items of this iterator / slice
+        if node.get("k") == "MethodCall" and node.get("name") in ("copy_from_slice", "clone_from_slice", "fill", "fill_with", "swap", "reverse", "rotate_left") and rooted_at_buf(node["recv"]):
+            return False, "buffer written by %s() (not an upper-casing store)" % node["name"]
+        if node.get("k") == "Assign":
+            l = F.strip(node["l"])
+            if l.get("k") == "Unary" and l.get("op") == "Deref":
+                deref_stores.append(node)
         if node.get("k") == "Assign":
             l = F.strip(node["l"])
             if l.get("k") == "Index":
@@ -431,6 +452,12 @@ def buffer_written_upper(body, lid):
                     t = F.strip(a)
                     if t.get("k") == "Path" and t["res"].get("local") == lid:
                         return False, "buffer passed by &mut to %s" % F.callee(node)
+    if aliased:
+        # the buffer is filled through `for dst in buf.iter_mut()...`: every `*x = v` in this function must upper-case
+        for node in deref_stores:
+            if not is_upper(node["r"]):
+                return False, "store through a mutable alias of the buffer is not a to_ascii_uppercase() result (%s)" % F.file_line(F.site(node))
+        stores += len(deref_stores)
     if stores == 0:
         return False, "no store into the buffer found"
     return True, "%d store(s), all to_ascii_uppercase()" % stores
